@@ -66,6 +66,7 @@ type treeScn struct {
 	pert   *perturber
 	wgObs  sync.WaitGroup
 	wedged bool
+	hb     kcache.HandlerBuilder
 	hot    bool // shut down in the middle of the traffic: no barrier and no snapshots before the close
 }
 
@@ -321,7 +322,16 @@ func (s *treeScn) addNode1(p *tnode, kind, mode, fname string) *tnode {
 		// the stage name must be known before the first callback can fire
 		n.stage = fmt.Sprintf("monnode%d", n.id)
 		var m kcache.Monitor
-		m, err = kcache.NewMonitor(p.pub, h)
+		var hh kcache.Handler = h
+		if s.rng.Intn(2) == 0 {
+			// through the library's handler builder, one builder for all monitors of the scenario: a handler
+			// made by Create() is a value of its own, later use of the builder does not reach it
+			if s.hb == nil {
+				s.hb = kcache.BuildHandler()
+			}
+			hh = s.hb.OnInitialize(h.OnInitialize).OnCreate(h.OnCreate).OnUpdate(h.OnUpdate).OnDelete(h.OnDelete).Create()
+		}
+		m, err = kcache.NewMonitor(p.pub, hh)
 		if err == nil {
 			n.mon, n.closer, n.done = m, m, m.Done()
 			n.handler = h
